@@ -15,6 +15,7 @@ import (
 	"go/ast"
 	"go/parser"
 	"go/token"
+	"go/types"
 	"path/filepath"
 	"strings"
 )
@@ -132,6 +133,53 @@ func srvsessFacts(fd *ast.FuncDecl) (unsupported bool, lookup string, nilChecked
 	return
 }
 
+// srvsessItemLoopFacts inspects the loop over MonitoredItemIDs of SetMonitoringMode /
+// DeleteMonitoredItems: is a failed lookup (`if !ok`) left with `continue` BEFORE the item is
+// dereferenced in the ownership test, and does a failed ownership test `continue`?
+func srvsessItemLoopFacts(fd *ast.FuncDecl) (unknownContinues, mismatchContinues bool, err error) {
+	var loop *ast.RangeStmt
+	ast.Inspect(fd.Body, func(n ast.Node) bool {
+		if r, ok := n.(*ast.RangeStmt); ok && loop == nil && strings.Contains(types.ExprString(r.X), "MonitoredItemIDs") {
+			loop = r
+		}
+		return true
+	})
+	if loop == nil {
+		return false, false, fmt.Errorf("%s: no loop over MonitoredItemIDs", fd.Name.Name)
+	}
+	hasContinue := func(b *ast.BlockStmt) bool {
+		found := false
+		ast.Inspect(b, func(n ast.Node) bool {
+			if br, ok := n.(*ast.BranchStmt); ok && br.Tok == token.CONTINUE {
+				found = true
+			}
+			return true
+		})
+		return found
+	}
+	seenMismatch := false
+	for _, st := range loop.Body.List {
+		ifs, ok := st.(*ast.IfStmt)
+		if !ok {
+			continue
+		}
+		cond := types.ExprString(ifs.Cond)
+		switch {
+		case cond == "!ok":
+			if !seenMismatch && hasContinue(ifs.Body) {
+				unknownContinues = true
+			}
+		case strings.Contains(cond, "AuthTokenID"):
+			seenMismatch = true
+			mismatchContinues = hasContinue(ifs.Body)
+		}
+	}
+	if !seenMismatch {
+		return false, false, fmt.Errorf("%s: ownership test not found", fd.Name.Name)
+	}
+	return
+}
+
 func genSrvSession(repo string) (string, error) {
 	methods, initH, fset, err := srvsessMethods(repo)
 	if err != nil {
@@ -220,6 +268,34 @@ func genSrvSession(repo string) (string, error) {
 	sb.WriteString("/-- does `handleService` (the dispatcher) look up / nil-check the session before dispatching -/\n")
 	fmt.Fprintf(&sb, "def dispatcherLookup : String := %q\n", lk)
 	fmt.Fprintf(&sb, "def dispatcherNilChecked : Bool := %v\n\n", nc)
+	// how CreateSubscription picks the new id, and the item loops
+	cs, ok := methods["SubscriptionService.CreateSubscription"]
+	if !ok {
+		return "", fmt.Errorf("CreateSubscription not found")
+	}
+	byLen := false
+	ast.Inspect(cs.decl.Body, func(n ast.Node) bool {
+		if c, ok := n.(*ast.CallExpr); ok {
+			if id, ok := c.Fun.(*ast.Ident); ok && id.Name == "len" && len(c.Args) == 1 && strings.HasSuffix(types.ExprString(c.Args[0]), ".Subs") {
+				byLen = true
+			}
+		}
+		return true
+	})
+	sb.WriteString("/-- CreateSubscription derives the new id from `len(s.Subs)` (true) / from a counter that is never reused (false) -/\n")
+	fmt.Fprintf(&sb, "def subIdByLen : Bool := %v\n\n", byLen)
+	for _, m := range []struct{ method, lean string }{{"SetMonitoringMode", "setMode"}, {"DeleteMonitoredItems", "delItems"}} {
+		md, ok := methods["MonitoredItemService."+m.method]
+		if !ok {
+			return "", fmt.Errorf("%s not found", m.method)
+		}
+		u, mm, err := srvsessItemLoopFacts(md.decl)
+		if err != nil {
+			return "", err
+		}
+		fmt.Fprintf(&sb, "/-- %s: an unknown item id is answered and skipped before the item is dereferenced -/\ndef %sUnknownContinues : Bool := %v\n", m.method, m.lean, u)
+		fmt.Fprintf(&sb, "/-- %s: an item of another session is answered BadSessionIDInvalid and skipped -/\ndef %sMismatchContinues : Bool := %v\n\n", m.method, m.lean, mm)
+	}
 	sb.WriteString("end Opcua.Gen.SrvSession\n")
 	return strings.ReplaceAll(sb.String(), ",\n]", "\n]"), nil
 }
